@@ -6,6 +6,7 @@ package harness
 // -1 for bodies of unknown length; Hijack hands over a net.Conn).
 
 import (
+	"errors"
 	"bufio"
 	"context"
 	"fmt"
@@ -254,6 +255,9 @@ type ReqSpec struct {
 	BodyChunk     int
 	RemoteAddr    string
 	HoldHeader    chan struct{} // slow connection: the first status line blocks until this channel is closed
+	// BodyErrIsEncoding: the body read failure injected with FailBodyAt is the body's own (malformed chunked
+	// encoding): the connection is still there, net/http does not cancel the request context
+	BodyErrIsEncoding bool
 }
 
 func NewReq(method, path, query string) ReqSpec {
@@ -310,7 +314,11 @@ func Do(h http.Handler, spec ReqSpec) *Exchange {
 				cancel()
 			}
 		}
-		b.onConnErr = cancel
+		if spec.BodyErrIsEncoding && spec.FailBodyAt >= 0 {
+			b.failErr = errors.New("malformed chunked encoding")
+		} else {
+			b.onConnErr = cancel
+		}
 		if spec.ContentLength == -2 {
 			req.ContentLength = int64(len(spec.Body))
 		} else {
